@@ -147,6 +147,15 @@ def gen_statement(rng):
         if ' group by ' in s1 or ' group by ' in s2 or ' join ' in s1 or ' join ' in s2 or ', int' in s1 or ', int' in s2:
             return gen_select(rng)
         return f'{fix(s1)} union {rng.choice(["", "all "])}{fix(s2)}'
+    if 0.08 <= k < 0.11:
+        # chains of set operations that mix the plain and the ALL form
+        c = rng.choice(COLS)
+        parts = []
+        for _ in range(3):
+            ig, t = rng.choice(c08.ALL_TABLES)
+            parts.append(f'select {c} from {ig}.{t}')
+        ops = rng.choice([['union', 'union all'], ['union all', 'union'], ['union', 'union'], ['union all', 'union all']])
+        return f'{parts[0]} {ops[0]} {parts[1]} {ops[1]} {parts[2]}'
     if k < 0.14:
         ig, t = rng.choice(c08.ALL_TABLES)
         return f'with c1 as (select * from {ig}.{t} where {bex(rng, [t], 2)}) select * from c1 where {bex(rng, ["c1"], 2)}'
@@ -194,6 +203,8 @@ EDGE = [
     "select a, b from int1.t1 union all select a, b from int2.t2",
     "select * from int1.t1 where t1.a - -t1.b > 0",
     "select * from int1.t1 where -(-t1.a) = 1",
+    "select a from int1.t1 union select a from int2.t2 union all select a from int3.t3", "select a from int1.t1 union all select a from int1.t1 union select a from int1.t1",
+    "select a from int1.t1 union select a from int1.t1 union all select a from int1.t1",
     "select 'C:\\tmp' as k, t1.a from int1.t1", "select 'it''s' as k, 'a\\\\b' as j from int1.t1 where t1.a = 1",
 ]
 
@@ -279,7 +290,8 @@ def run(tier, seed, replay=None):
             stats['unsupported'] += 1
             skipped.setdefault('unsupported: ' + str(e)[:50], sql)
             continue
-        dbs = [sqlcoq.gen_db(rng, c08.ALL_TABLES, COLS) for _ in range(ndb)]
+        setop = ' union ' in sql.lower()
+        dbs = [sqlcoq.gen_db(rng, c08.ALL_TABLES, COLS, few_values=setop and i % 2 == 0) for i in range(ndb * (2 if setop else 1))]
         for dialect in ('sqlite', 'mysql', 'postgres'):
             try:
                 rendered = SqlalchemyRender(dialect).get_string(parse_sql(sql, 'mindsdb'), with_failback=False)
